@@ -79,3 +79,25 @@ class debug_logging:
         self.lg.propagate = self.old[1]
         logging.disable(logging.CRITICAL)
         return False
+
+
+def register_kind(name, cls):
+    """Register a private check kind through the library's public API."""
+    from oslo_policy import policy
+    policy.register(name, cls)
+
+
+def unregister_kind(name):
+    """There is no public way to unregister a check kind; the registry dict is internal - if it has moved, the private
+    kind simply stays registered for the rest of this (short-lived) worker process."""
+    try:
+        from oslo_policy import _checks
+        _checks.registered_checks.pop(name, None)
+    except Exception:
+        pass
+
+
+def printed(rule_text):
+    """Printed form of a rule, obtained through the public RuleDefault class."""
+    from oslo_policy import policy
+    return str(policy.RuleDefault('pv:printed', rule_text).check)
